@@ -340,7 +340,7 @@ fn path_strat(opts: &GenOpts, unit: u64, round_units: u64) -> BoxedStrategy<Path
                 vec(hop_strat(&o, unit, round_units), n),
                 if fw { prop_oneof![12 => Just(None), 1 => (1u8..=30, prop_oneof![Just(13u8), Just(1u8), Just(10u8)]).prop_map(Some)].boxed() } else { Just(None).boxed() },
                 if nat {
-                    vec((1u8..=20, any::<bool>(), 1u16..=200, prop_oneof![Just(None), (1024u16..60000).prop_map(Some)]), 0..=3).boxed()
+                    vec((1u8..=20, any::<bool>(), 1u16..=200, prop_oneof![Just(None), (1024u16..60000).prop_map(Some)], prop::bool::weighted(0.2)), 0..=3).boxed()
                 } else {
                     Just(vec![]).boxed()
                 },
@@ -358,7 +358,7 @@ fn path_strat(opts: &GenOpts, unit: u64, round_units: u64) -> BoxedStrategy<Path
                 firewall,
                 nats: nats
                     .into_iter()
-                    .map(|(at, inclusive, new_src, new_sport)| NatSpec { at, inclusive, new_src, new_sport })
+                    .map(|(at, inclusive, new_src, new_sport, restore)| NatSpec { at, inclusive, new_src, new_sport, restore })
                     .collect(),
             }
         })
